@@ -124,7 +124,7 @@ def run(case, ctx):
         return ctx.fail("outer/input-modified", "an input table changed during a join")
     # the same joins again after an in-place edit of one right key cell: inner <= left <= full must hold for the new contents
     spec = case["R"]["specs"][0]
-    if case["nr"] >= 1 and case["nl"] >= 1 and spec[0] in ("name", "own") and lkeys[0][0] is not None:
+    if case["nr"] >= 1 and case["nl"] >= 1 and spec[0] in ("name", "own") and lkeys[0][0] is not None and not case["R"].get("repeat"):
         kc = [nm for nm, _ in case["R"]["cols"]].index(spec[1]) if spec[0] == "name" else spec[1]
         newv = lkeys[0][0]
         try:
